@@ -163,4 +163,53 @@ WITNESSES = [
         ("                    key = tuple(sorted(t_block + list(blocks)))\n                    if key not in ret:\n                        ret[key] = 0\n                    ret[key] += contrib",
          "                    merge_into(ret, tuple(sorted(t_block + list(blocks))), contrib)"),
     ]),
+    # ---- call history (R14f): a module-level cache of the tensor symmetry
+    # mirrors seeded/C14-5: the key forgets that the minimal indices depend on the target names of the term
+    dict(id="c14-stale-symmetry-cache", prop="C14", file=D, expect="R14f", edits=[
+        ("from sympy import Rational, diff, S\n",
+         "from sympy import Rational, diff, S\n\n_block_symmetry_cache: dict[tuple, dict] = {}\n\n\n"
+         "def _block_symmetry(obj: e.Term) -> dict:\n    tensor = obj.tensors[0]\n"
+         "    key = (tensor.name, tensor.space, tensor.spin, tensor.exponent,\n           tensor.bra_ket_sym, tensor.type_as_str)\n"
+         "    if key not in _block_symmetry_cache:\n        _block_symmetry_cache[key] = obj.symmetry()\n"
+         "    return _block_symmetry_cache[key]\n"),
+        ("            tensor_sym = obj.symmetry()\n", "            tensor_sym = _block_symmetry(obj)\n"),
+    ]),
+    # a remembered block key -> Expr across calls: the second call adds into the first call's result
+    dict(id="c14-stale-result-cache", prop="C14", file=D, expect="R14f", edits=[
+        ("from sympy import Rational, diff, S\n", "from sympy import Rational, diff, S\n\n_blocks: dict = {}\n"),
+        ("    derivative = {}\n    for term in expr.terms:", "    derivative = _blocks\n    for term in expr.terms:"),
+    ]),
+    # correct cache: the key is the minimised tensor itself (with its indices) and the assumptions
+    dict(id="c14-ok-symmetry-cache-full-key", prop="C14", file=D, expect=None, edits=[
+        ("from sympy import Rational, diff, S\n",
+         "from sympy import Rational, diff, S\n\n_symmetry_cache: dict[tuple, dict] = {}\n\n\n"
+         "def _cached_symmetry(obj: e.Term) -> dict:\n"
+         "    key = (obj.sympy, obj.real, obj.sym_tensors, obj.antisym_tensors)\n"
+         "    if key not in _symmetry_cache:\n        _symmetry_cache[key] = obj.symmetry()\n"
+         "    return _symmetry_cache[key]\n"),
+        ("            tensor_sym = obj.symmetry()\n", "            tensor_sym = _cached_symmetry(obj)\n"),
+    ]),
+    # correct cache: block key extended by the reserved target names the minimal indices depend on
+    dict(id="c14-ok-symmetry-cache-target-names", prop="C14", file=D, expect=None, edits=[
+        ("from sympy import Rational, diff, S\n",
+         "from sympy import Rational, diff, S\n\n_symmetry_cache: dict[tuple, dict] = {}\n\n\n"
+         "def _cached_symmetry(obj: e.Term, reserved: dict) -> dict:\n    tensor = obj.tensors[0]\n"
+         "    names = tuple(sorted((k, tuple(sorted(v))) for k, v in reserved.items()))\n"
+         "    key = (tensor.name, tensor.space, tensor.spin, tensor.exponent, tensor.bra_ket_sym,\n"
+         "           tensor.type_as_str, names, obj.real, obj.sym_tensors, obj.antisym_tensors)\n"
+         "    if key not in _symmetry_cache:\n        _symmetry_cache[key] = obj.symmetry()\n"
+         "    return _symmetry_cache[key]\n"),
+        ("            tensor_sym = obj.symmetry()\n", "            tensor_sym = _cached_symmetry(obj, target_names_by_space)\n"),
+    ]),
+    # the short key of the seed is fine when the cache lives for one term only (emptied whenever the target names are rebuilt)
+    dict(id="c14-ok-symmetry-cache-cleared", prop="C14", file=D, expect=None, edits=[
+        ("from sympy import Rational, diff, S\n",
+         "from sympy import Rational, diff, S\n\n_block_symmetry_cache: dict[tuple, dict] = {}\n\n\n"
+         "def _block_symmetry(obj: e.Term) -> dict:\n    tensor = obj.tensors[0]\n"
+         "    key = (tensor.name, tensor.space, tensor.spin, tensor.exponent,\n           tensor.bra_ket_sym, tensor.type_as_str)\n"
+         "    if key not in _block_symmetry_cache:\n        _block_symmetry_cache[key] = obj.symmetry()\n"
+         "    return _block_symmetry_cache[key]\n"),
+        ("        target_names_by_space = {}\n", "        target_names_by_space = {}\n        _block_symmetry_cache.clear()\n"),
+        ("            tensor_sym = obj.symmetry()\n", "            tensor_sym = _block_symmetry(obj)\n"),
+    ]),
 ]
